@@ -28,7 +28,8 @@ def units(tier):
 
 def num():
     """a number as it will be printed: value, decimals, optional esd digits"""
-    return st.tuples(S.fl(0, 1), st.integers(0, 5), st.one_of(st.none(), st.integers(1, 99))).map(list)
+    return st.tuples(S.fl(0, 1), st.integers(0, 5), st.one_of(st.none(), st.integers(1, 99)),
+                     st.sampled_from(["f", "f", "f", "e", "E"])).map(list)
 
 
 def strategy(tier, unit):
@@ -61,7 +62,11 @@ def strategy(tier, unit):
 def fmt(n, lo, hi):
     """text and value-as-printed of a drawn number mapped to [lo, hi]"""
     x = lo + (hi - lo) * n[0]
-    s = "%.*f" % (n[1], x)
+    style = n[3] if len(n) > 3 else "f"
+    if style == "f":
+        s = "%.*f" % (n[1], x)
+    else:                                   # CIF numbers may be written in exponent notation: 2.5e-05, 1.6E-3(2)
+        s = ("%.*e" if style == "e" else "%.*E") % (n[1], x)
     if s.startswith("-") and float(s) == 0:
         s = s[1:]
     v = float(s)
@@ -149,7 +154,7 @@ def write_cif(case):
         row = [lab, sym_of(a)]
         pos, postext = [], []
         for n in a["pos"]:
-            if n[2] is None and n[1] in (1, 2, 4) and n[0] in (0.25, 0.5, 0.0, 0.75, 1.0 / 3):
+            if len(n) == 3 and n[2] is None and n[1] in (1, 2, 4) and n[0] in (0.25, 0.5, 0.0, 0.75, 1.0 / 3):
                 t, v = fmt(n, 0, 1)
             else:
                 t, v = fmt(n, -0.5, 1.5)
@@ -251,6 +256,7 @@ def check_cif(case, ctx, tmp):
         ctx.event("cif/extra-global-block")
     ctx.event("cif/mult-key:%s" % (MULT_KEYS[case["mult_key"]] or "absent"))
     ctx.event("cif/type-loop:" + case["type_loop"])
+    GR.touch_sibling(case["sgno"], "standard")
     b = structure.build_atomlist()
     b.CIFread(p)
     al = b.atomlist
@@ -285,7 +291,7 @@ def check_cif(case, ctx, tmp):
             if float(a.symmulti) != e["symmulti"]:
                 ctx.fail("cif/multiplicity-from-file", "%s: symmulti %r, file states %r" % (e["label"], a.symmulti, e["symmulti"]))
         else:
-            fr = [Fr(t) for t in e["postext"]]
+            fr = [Fr(t) for t in e["postext"]]          # Fraction parses decimal and exponent notation exactly
             n, sep = exact_multiplicity(g, fr)
             if sep:
                 ctx.event("cif/computed-multiplicity-checked")
@@ -419,6 +425,7 @@ def check_pdb(case, ctx, tmp):
     ctx.event("pdb")
     if " 1" in exp["symbol"]:
         ctx.event("pdb/symbol-with-1-token")
+    GR.touch_sibling(case["sgno"], "standard")
     b = structure.build_atomlist()
     b.PDBread(p)
     al = b.atomlist
